@@ -139,9 +139,10 @@ CHECKS = {
         "level_note": "magic values other than 2049 may exist; the generator is aimed at this one because reading skipFile shows it matters.",
         "rule": ("rapid draws (build pair, compression, optimized?, whitelist mode). Non-trivial: non-empty whitelist and a skipped series "
                  "adjacent to a processed one. Distinct: SHA-1 of the spec."),
-        "assumptions": ["the whitelisted set is {i : map[i] == true}: in a quarter of the cases the map handed to the patcher also carries an explicit false entry "
+        "assumptions": ["stop/resume sub-check, fresh bowls, one case in three: the second session's whitelist no longer has the file the checkpoint was taken in; that file is then not judged, every other selected file is; a refusal (error) of that second session is no verdict - two whitelists for one application are outside the quantifier",
+                        "the whitelisted set is {i : map[i] == true}: in a quarter of the cases the map handed to the patcher also carries an explicit false entry "
                         "for every other file (a caller writing wl[i] = needsPatching(i)); the patcher's own test is !whitelist[i]"],
-        "required_classes": {"quick": ["skipped:bsdiff", "skipped:rsync", "skipped:wholefile", "selected:bsdiff", "skipped:bsdiff-target-2049", "whitelist:explicit-false-entries"],
+        "required_classes": {"quick": ["whitelist:file-in-progress-dropped-at-resume", "skipped:bsdiff", "skipped:rsync", "skipped:wholefile", "selected:bsdiff", "skipped:bsdiff-target-2049", "whitelist:explicit-false-entries"],
                              "thorough": ["skipped:bsdiff", "skipped:rsync", "skipped:wholefile", "selected:bsdiff", "skipped:bsdiff-target-2049", "skipped:emptyfile"]},
         "stages": [rapid("whitelist", "TestProp", 12000, 256000, qs=16, ts=16, qt=600, tt=5400),
                    rapid("magic", "TestMagic", 12, 200, qs=4, ts=8, qt=600, tt=3000, shrinktime="5s")],
@@ -157,10 +158,11 @@ CHECKS = {
         "level_note": "the old signature is the stream WritePatch emits when the old build is the 'new' side; damage is to regular files only.",
         "rule": ("rapid draws (build pair, compression, optimized?, 0-2 damages). Non-trivial: a damage lands in a block that some op of the "
                  "decoded patch reads. Distinct: SHA-1 of the spec."),
-        "assumptions": ["every rsync series of the case's patch is also applied through wsync.Context.ApplyPatch (the channel entry point, operations queued beforehand) with a safekeeper pool of its own over the damaged build: nil only with exactly the new file, no rejection of an undamaged build; a new pool is opened after every error",
+        "assumptions": ["a third of the cases stop at the 1st-3rd checkpoint (when that many are offered) and resume with a new patcher and fresh bowl but the SAME safekeeper, closed by the first session on its way out; its signature can be fetched once only (a second Open fails) - the stated once-only loading needs no more",
+                        "every rsync series of the case's patch is also applied through wsync.Context.ApplyPatch (the channel entry point, operations queued beforehand) with a safekeeper pool of its own over the damaged build: nil only with exactly the new file, no rejection of an undamaged build; a new pool is opened after every error",
                         "one case in ten gives the safekeeper a signature stream cut inside its magic (unreadable under every compression setting): the only verdict then is 'error, or exactly the new build'",
                         ],
-        "required_classes": {"quick": ["route:wsync.ApplyPatch-as-well", "reuse:blockrange", "reuse:wholefile", "reuse:bsdiff", "outcome:damaged-rejected", "outcome:undamaged-accepted",
+        "required_classes": {"quick": ["sessions:stop-and-resume-with-the-same-safekeeper,-signature-fetchable-once", "route:wsync.ApplyPatch-as-well", "reuse:blockrange", "reuse:wholefile", "reuse:bsdiff", "outcome:damaged-rejected", "outcome:undamaged-accepted",
                                         "damage:truncate-at-block-boundary", "damage:extend-inside-last-block"],
                              "thorough": ["reuse:blockrange", "reuse:wholefile", "reuse:bsdiff", "outcome:damaged-rejected", "outcome:undamaged-accepted",
                                           "damage:truncate-at-block-boundary", "damage:extend-inside-last-block", "damage:extend-file-of-exact-block-multiple", "damage:delete"]},
@@ -181,10 +183,11 @@ CHECKS = {
         "rule": ("rapid draws (family, files with sizes, copies/renames, edits). Non-trivial: an edited file of >= 8 blocks with >= 1 "
                  "length-changing edit (where a de-synchronised rolling hash would blow the bound); for the identical/rename families a "
                  "multi-block file that is kept, renamed or duplicated. Distinct: SHA-1 of the spec."),
-        "assumptions": ["high-entropy streams do not collide on 64KiB blocks by chance",
+        "assumptions": ["renames family, a quarter of the cases: two files trade places (each path stays and gets the other's content); a quarter of those have equal sizes of 4-6 MiB",
+                        "high-entropy streams do not collide on 64KiB blocks by chance",
                         "in a fifth of the cases the same DiffContext writes the patch twice (a retry on a new writer): wharf's FreshBytes/ReusedBytes are cumulative, so the second call is "
                         "judged by the counters' increase, which must equal the first call's, and by byte-equal patches"],
-        "required_classes": {"quick": ["family:identical", "family:renames", "edits:length-changing", "edits:k=3", "old-signature:read-back-from-a-signature-stream",
+        "required_classes": {"quick": ["renames:two-files-trade-places", "family:identical", "family:renames", "edits:length-changing", "edits:k=3", "old-signature:read-back-from-a-signature-stream",
                                        "content:blocks-with-weak-hash-0", "old:two-files-differing-in-a-block-with-the-same-weak-hash", "differ:same-DiffContext-used-twice"],
                              "thorough": ["family:identical", "family:renames", "edits:length-changing", "edits:k=4", "edited-file:>4MiB"]},
         "stages": [rapid("freshbytes", "TestProp", 3600, 96000, qs=16, ts=16, qt=600, tt=5400)],
@@ -203,10 +206,11 @@ CHECKS = {
         "level_note": "trusted: crypto/md5, the reference weak hash written from the format description.",
         "rule": ("rapid draws (new tree, old-build kind, compression). Non-trivial: a file with >=2 blocks and a short tail, or an empty file "
                  "beside a non-empty one. Distinct: SHA-1 of the spec."),
-        "assumptions": ["one case in four signs stand-alone over a pool that is not handed over fresh: its file 0 has been opened and 4 bytes of it read (builds without files excepted)",
+        "assumptions": ["a third of the cases end with three fail-fast validations of the pristine build at the same time (diff-time, stand-alone, diff-time signature), each with its own context, twice each: all must pass",
+                        "one case in four signs stand-alone over a pool that is not handed over fresh: its file 0 has been opened and 4 bytes of it read (builds without files excepted)",
                         "one case in eight is a single-file build: the build is one regular file, walked, signed, diffed and validated through its path (pools.New; the harness opens every build through pools.New, as butler does)",
                         ],
-        "required_classes": {"quick": ["producer:stand-alone-on-a-used-pool", "file:exact-block-multiple", "tree:empty-file-beside-non-empty", "comp:gzip", "comp:brotli", "tree:no-files"],
+        "required_classes": {"quick": ["validation:three-at-the-same-time-in-one-process", "producer:stand-alone-on-a-used-pool", "file:exact-block-multiple", "tree:empty-file-beside-non-empty", "comp:gzip", "comp:brotli", "tree:no-files"],
                              "thorough": ["file:exact-block-multiple", "tree:empty-file-beside-non-empty", "comp:gzip", "comp:brotli", "tree:no-files", "tree:symlinks"]},
         "stages": [rapid("signature", "TestProp", 4800, 192000, qs=16, ts=16, qt=600, tt=5400, schedule_dependent=True)],
     },
@@ -244,9 +248,10 @@ CHECKS = {
         "level_note": "interleavings of validator, wound channel and healer are sampled, not enumerated.",
         "rule": ("rapid draws (tree, damage sequence, GOMAXPROCS, jitter bytes). Non-trivial: >=1 file healed and >=1 directory or symlink wound. "
                  "Distinct: SHA-1 of the spec."),
-        "assumptions": ["a quarter of the cases heal a second build (three files of 70000-200000 bytes, directory missing) again and again through another ValidatorContext in the same process while the case's directory is healed; both must come out right",
+        "assumptions": ["a third of the cases keep the healing archive under a name that does not end in .zip (build-48213, build.zip.part, archive.bin): 'archive,<path>' says what the file is, not its name",
+                        "a quarter of the cases heal a second build (three files of 70000-200000 bytes, directory missing) again and again through another ValidatorContext in the same process while the case's directory is healed; both must come out right",
                         "the healing archive is a zip of the pristine build (wharf's own stored zip, as in its scenario tests, or a standard deflate zip)"],
-        "required_classes": {"quick": ["process:another-build-healed-at-the-same-time", "dir:already-valid", "dir:healed", "archive:deflate-zip", "damage:hides-subtree", "damage:kind-swap:d->link", "damage:kind-swap:d->file"],
+        "required_classes": {"quick": ["archive:name-does-not-end-in-.zip", "process:another-build-healed-at-the-same-time", "dir:already-valid", "dir:healed", "archive:deflate-zip", "damage:hides-subtree", "damage:kind-swap:d->link", "damage:kind-swap:d->file"],
                              "thorough": ["dir:already-valid", "dir:healed", "damage:hides-subtree", "damage:kind-swap:d->link", "damage:kind-swap:d->file", "damage:whole-directory-delete", "damage:whole-directory-empty"]},
         "stages": [rapid("heal", "TestProp", 9600, 192000, qs=16, ts=16, qt=600, tt=5400, schedule_dependent=True)],
     },
@@ -337,10 +342,11 @@ CHECKS = {
         "level_note": "the old-file reader never returns short reads (bytes.Reader / os.File), like the readers the overlay bowl uses.",
         "rule": ("rapid draws (entropy, runs, cuts, slices, actions). Non-trivial: the overlay contains >=1 SKIP and >=1 FRESH and the run had a "
                  "flush or a session break. Distinct: SHA-1 of the spec."),
-        "assumptions": ["direct stage, a third of the cases: some writes (drawn pattern) are not Write calls but io.Copy from a reader that has nothing but Read, so io.Copy uses whatever the writer offers (ReadFrom if it has one, 32 KiB Write calls if not)",
+        "assumptions": ["bowl stage, a quarter of the cases: a first attempt at the file on the same bowl object writes 1-300 KiB and is given up (Close without Finalize, no checkpoint), then the file is started over; both stages, one case in five: the new content lost a prefix of 1 byte - 384 KiB (window-sized ones up-weighted)",
+                        "direct stage, a third of the cases: some writes (drawn pattern) are not Write calls but io.Copy from a reader that has nothing but Read, so io.Copy uses whatever the writer offers (ReadFrom if it has one, 32 KiB Write calls if not)",
                         "at most 24 sessions per case (each allocates two 128KiB buffers)",
                         "bowl stage, a quarter of the cases: the old file on disk is longer than the old build's container says (appended to after install); the overlay is computed against and applied to what is on disk"],
-        "required_classes": {"quick": ["feed:io.Copy-after-other-writes", "op:skip", "op:fresh", "sessions:>1", "flush:some", "entropy:periodic", "new:shorter", "new:longer", "bowl:session-wrote-after-the-checkpoint-it-is-resumed-from"],
+        "required_classes": {"quick": ["new:lost-a-prefix", "feed:io.Copy-after-other-writes", "op:skip", "op:fresh", "sessions:>1", "flush:some", "entropy:periodic", "new:shorter", "new:longer", "bowl:session-wrote-after-the-checkpoint-it-is-resumed-from"],
                              "thorough": ["op:skip", "op:fresh", "sessions:>1", "flush:some", "entropy:periodic", "entropy:constant", "new:shorter", "new:longer", "new:empty"]},
         "stages": [rapid("overlay", "TestProp", 16000, 400000, qs=16, ts=16, qt=600, tt=5400),
                    rapid("viabowl", "TestViaBowl", 8000, 160000, qs=16, ts=16, qt=600, tt=5400)],
@@ -361,7 +367,8 @@ CHECKS = {
         "level_note": "the bsdiff worker pipeline's schedules are sampled via GOMAXPROCS only; a panic inside its goroutines kills the process and is reported from the journal.",
         "rule": ("enumerated cases are distinct by construction; generated ones by SHA-1 of the spec. Non-trivial: >=2 controls with a non-zero "
                  "seek (diff stages); an op sequence that touches more chunks than the cache holds (lrufile); >=2 steps (far seeks)."),
-        "assumptions": ["old-file readers never return short reads (bytes.Reader), the contract lrufile documents",
+        "assumptions": ["half of the used DiffContexts have diffed an unrelated, somewhat longer pair (non-zero adds all along) instead of the same pair with roles swapped; whether an enumerated case runs on a used context is decided from its lengths and first bytes",
+                        "old-file readers never return short reads (bytes.Reader), the contract lrufile documents",
                         "in two cases out of three (decided from the case alone) the differ gets seekable readers handed over at a non-zero position, behind a header: 'old' and 'new' are whatever remains to be read"],
         "required_classes": {"quick": ["old:empty", "new:empty", "new:shorter-than-partitions", "old:shorter-than-partitions", "cache:evictions", "seek:out-of-range", "old:>32MiB-cache"],
                              "thorough": ["old:empty", "new:empty", "new:shorter-than-partitions", "old:shorter-than-partitions", "cache:evictions", "seek:out-of-range", "old:>32MiB-cache", "size:>1MiB"]},
@@ -390,7 +397,8 @@ CHECKS = {
         "level_note": "native fuzzing cannot be pinned to a seed; its saved crashers are the reproducible unit (they replay through ./check C10 --replay).",
         "rule": ("evaluations = streams fed to a target. Non-trivial: a truncated or mutated stream whose mutation lies behind the containers (the "
                  "target must handle ops to reach it). Distinct: enumerated prefixes by construction, mutations by SHA-1 of the spec."),
-        "assumptions": ["the two containers in a stream are well-formed and no message declares a length beyond the stream (the property's own precondition)",
+        "assumptions": ["one mutation in eight on patch streams replaces the whole series of a file (sync header .. end marker) by a syntactically complete series of the other kind (bsdiff header, optional control of 0-70000 bytes, Eof control, end marker / optional data op, end marker)",
+                        "the two containers in a stream are well-formed and no message declares a length beyond the stream (the property's own precondition)",
                         "the resume target is fed truncated streams only: behind dropped/duplicated/resized messages a resumed reader starts between message boundaries, where arbitrary bytes read as a length prefix (outside the precondition); "
                         "checkpoints that resume from beyond the end of the stream belong to another stream and are skipped (savior's in-memory seek source, which the harness uses, panics on them; that is neither wharf nor in the quantifier)"],
         "required_classes": {"quick": ["target:apply-fresh", "target:apply-resume", "target:optimize", "target:signature", "target:overlay", "mutation:set:fileIndex", "framing:compressed", "truncation:every-prefix"],
@@ -413,7 +421,7 @@ CHECKS = {
         "level_note": "goroutine schedules are sampled (GOMAXPROCS, injected yields/sleeps/short reads), not enumerated; a race needing one specific interleaving inside wharf's own goroutines may be missed.",
         "rule": ("rapid draws (build pair, compression, jitter bytes, optimizer partitions). evaluations = cases, sub_evaluations = diff/optimize "
                  "runs compared. Non-trivial: a new build with >=2 files of >=3 blocks. Distinct: SHA-1 of the spec."),
-        "assumptions": [],
+        "assumptions": ["the second of the two rounds of concurrent diffs gives both diffs the same CompressionSettings object; it must be unchanged afterwards"],
         "required_classes": {"quick": ["jitter:on", "optimized:bsdiff-series", "comp:gzip", "comp:brotli"],
                              "thorough": ["jitter:on", "optimized:bsdiff-series", "comp:gzip", "comp:brotli"]},
         "replay_race": False,
@@ -438,8 +446,9 @@ CHECKS = {
         "rule": ("rapid draws (tree, format, workers, gate; crash stage: + restart workers). sub_evaluations = crash points exercised. Non-trivial: "
                  ">=2 workers with a constructed out-of-order completion (round trip); a crash while a gated lower-index entry is in flight "
                  "(crash stage). Distinct: SHA-1 of the spec."),
-        "assumptions": ["the destination directory exists and is empty, as the statement says"],
-        "required_classes": {"quick": ["format:tar", "format:zip", "schedule:constructed-out-of-order-completion", "crash:with-in-flight-lower-index-entry", "tree:one-large-among-small", "workers:-1", "workers:0", "gomaxprocs:1", "env:one-usable-cpu", "zip:containerarchiver-deflate"],
+        "assumptions": ["a quarter of the plain zip round trips are resumable (ResumeFrom set) with a resume file that is absent, empty, four zero bytes, '3x' or white space: nothing has been extracted, so the whole tree and the full counts are owed",
+                        "the destination directory exists and is empty, as the statement says"],
+        "required_classes": {"quick": ["resume-file:present-but-holds-no-number", "format:tar", "format:zip", "schedule:constructed-out-of-order-completion", "crash:with-in-flight-lower-index-entry", "tree:one-large-among-small", "workers:-1", "workers:0", "gomaxprocs:1", "env:one-usable-cpu", "zip:containerarchiver-deflate"],
                              "thorough": ["format:tar", "format:zip", "schedule:constructed-out-of-order-completion", "crash:with-in-flight-lower-index-entry", "tree:one-large-among-small", "workers:-1", "workers:16"]},
         "stages": [rapid("roundtrip", "TestProp", 4800, 192000, qs=16, ts=16, qt=600, tt=5400, schedule_dependent=True),
                    rapid("crash", "TestCrash", 480, 19200, qs=16, ts=16, qt=900, tt=5400, schedule_dependent=True, shrinktime="20s"),
